@@ -14,7 +14,9 @@
 (* slice header (backing, len, cap) that is copied on assignment, argument    *)
 (* passing and insertion, the element cells being shared; with the flag       *)
 (* `pads` it also fills an array on a READ past its end (`read-pads-array`,   *)
-(* F9).  Part 3 is used only to explain observations that differ from Part 1. *)
+(* F9); a header also has an offset into its backing (popfirst), and pop      *)
+(* leaves the removed cell in the spare capacity.                             *)
+(* Part 3 is used only to explain observations that differ from Part 1.       *)
 EXTENDS JqUtil
 
 -----------------------------------------------------------------------------
